@@ -95,12 +95,12 @@ def sub (a b : Mat) : Mat := ⟨a.n, fun i j => a.e i j - b.e i j⟩
 def smul (q : Rat) (a : Mat) : Mat := ⟨a.n, fun i j => GQ.smul q (a.e i j)⟩
 def gsmul (c : GQ) (a : Mat) : Mat := ⟨a.n, fun i j => c * a.e i j⟩
 
-/-- dot product `Σ_k f k * g k` that skips the terms whose left factor is zero (execution speed: the gate
+/-- dot product `Σ_k f k * g k` that skips the terms with a zero factor (execution speed: the gate
     matrices are sparse).  `Proofs/DMSem.lean: dot_eq_gsum` shows it is the plain sum. -/
 def dot (n : Nat) (f g : Nat → GQ) : GQ :=
   match n with
   | 0 => 0
-  | k+1 => if (f k).isZero then dot k f g else dot k f g + f k * g k
+  | k+1 => if (f k).isZero || (g k).isZero then dot k f g else dot k f g + f k * g k
 
 /-- matrix product `a @ b` -/
 def mul (a b : Mat) : Mat := ⟨a.n, fun i j => dot a.n (fun k => a.e i k) (fun k => b.e k j)⟩
